@@ -78,6 +78,9 @@ inductive Reason where
   | statsNullCountWrong | statsMinWrong | statsMaxWrong | statsMalformed
   -- counts
   | chunkValueCountMismatch | rowGroupRowCountMismatch | fileRowCountMismatch
+  -- byte sizes the metadata state: ColumnMetaData.total_uncompressed_size ≠ Σ over the chunk's pages of
+  -- (page header + uncompressed_page_size); RowGroup.total_byte_size ≠ Σ of its chunks' total_uncompressed_size
+  | chunkUncompressedSizeMismatch | rowGroupByteSizeMismatch
   deriving DecidableEq, Repr
 
 /-! ### small helpers -/
